@@ -74,6 +74,8 @@ type Instance struct {
 	cacheEpoch int
 	cacheSnap  []byte
 	loadStep   int // scheduler step at which the current incarnation started
+	timeGuardHit bool
+	timeGuardInc int
 	// recomputed: after a successful run of the recompute-cache tool, the
 	// (index, timestamp) the cache must answer for each entry it read
 	recomputed      map[[32]byte][][2]int64
